@@ -385,6 +385,13 @@ func (n *ReconcileNode) syncWithAPI(ctx context.Context, node *networkv1beta1.No
 			log.Info("sync eni with remote, old eni merged")
 			// exist record
 			// only ip is updated
+			// an empty map comes back as nil from the api server, mergeIPMap can only fill an existing one
+			if crENI.IPv4 == nil {
+				crENI.IPv4 = make(map[string]*networkv1beta1.IP)
+			}
+			if crENI.IPv6 == nil {
+				crENI.IPv6 = make(map[string]*networkv1beta1.IP)
+			}
 			mergeIPMap(log, remote.IPv4, crENI.IPv4)
 			mergeIPMap(log, remote.IPv6, crENI.IPv6)
 
